@@ -5,7 +5,9 @@ cd "$(dirname "$0")"
 export GOFLAGS=-mod=mod GOPROXY=off CARGO_NET_OFFLINE=true PIP_NO_INDEX=1
 mkdir -p build evidence
 python3 -c "import checklib; checklib.coq_makefile()"
-(cd coq && timeout 3000 make -j"$(nproc)")
+# build everything that builds; each check (re)builds the closure of its own Properties file and
+# reports a failure there, so one broken file must not take the whole setup down
+(cd coq && timeout 3000 make -k -j"$(nproc)") || echo "setup: some Coq files did not build (the checks that depend on them will say so)"
 # warm the Go build cache for the harness (best effort; each check rebuilds from /repo anyway)
 python3 - <<'PY' || true
 import sys; sys.path.insert(0, '.')
